@@ -30,4 +30,9 @@ static inline std::string hex(const std::string& s) {
 	for (unsigned char c : s) { out.push_back(d[c >> 4]); out.push_back(d[c & 15]); }
 	return out;
 }
+
+// Interpreters are destroyed on a separate thread: destruction can block for ever (lost wake-up in
+// BasicDelayedEventQueue::stop/run, see C10); the driver must survive that.
+namespace uscxml { class Interpreter; }
+void vd_reap(uscxml::Interpreter* in);   // takes ownership of a heap-allocated copy
 #endif
